@@ -388,8 +388,16 @@ struct Explorer {
 		run(node, Step{op, {}}, base);
 		process(node, base);
 		consider(node, base, frontier);
-		if (dev < 1 || !deviates(op)) return;
-		if ((props & P_C04) && opt.devImmediate)
+		if (dev < 1) return;
+		// answers of the environment (select / rank / utility / generator output: sticky points) deviate on every op;
+		// actions inside callbacks (requests, cancels, consumes ...) only on the ops selected by deviates()
+		const bool actions = deviates(op);
+		if (!actions) {
+			bool anyAnswer = false;
+			for (const PointInfo& p : base.points) if (p.key.occ == 0xFFFF) anyAnswer = true;
+			if (!anyAnswer || op.type == OP_BATCH) return;
+		}
+		if ((props & P_C04) && opt.devImmediate && actions)
 			// adversarial guard scripts: the same guard takes the same non-default decision in *every* round
 			for (size_t i = 0; i < base.points.size(); ++i) {
 				const PointInfo p = base.points[i];
@@ -404,13 +412,14 @@ struct Explorer {
 			}
 		for (size_t i = 0; i < base.points.size(); ++i) {
 			const PointInfo p = base.points[i];
+			if (!actions && p.key.occ != 0xFFFF) continue;
 			const int lim = ((op.type == OP_IMMEDIATE || op.type == OP_RESET) && opt.immReduced) ? p.reduced : p.menu;
 			for (int alt = 1; alt < lim; ++alt) {
 				Exec x1;
 				run(node, Step{op, {Choice{p.key, (uint16_t) alt}}}, x1);
 				process(node, x1);
 				consider(node, x1, frontier);
-				if (dev < 2 || x1.bad) continue;
+				if (dev < 2 || x1.bad || !actions) continue;
 				// second deviation: only at points that come after the first one, reduced menu
 				size_t j = 0;
 				while (j < x1.points.size() && !(x1.points[j].key == p.key)) ++j;
